@@ -7,3 +7,4 @@ import AcryoVerif.Props.C05
 import AcryoVerif.Props.C04
 import AcryoVerif.Props.C07
 import AcryoVerif.Props.C09
+import AcryoVerif.Props.C17
